@@ -135,6 +135,9 @@ def run_case(case):
                 for kind, h in zip(case["conns"], handlers):
                     if kind == "ctcp":
                         h.send_message(msg)
+            elif act == "W":
+                # the environment stalls: half a minute passes (virtual clock) and NO outstanding operation completes
+                await asyncio.sleep(30)
             else:
                 release(fakes[int(act[1:])], newest=act[0] == "D")
             if act[0] == "k":
@@ -167,6 +170,9 @@ def run_case(case):
         await idle()
         return obs, nxt
 
+    if "W" in case["schedule"]:
+        import vloop
+        return vloop.VirtualLoop().run(main())
     return asyncio.run(main())
 
 
@@ -176,6 +182,8 @@ def model_steps(case, ci):
     for act in case["schedule"]:
         if act in ("R", "r"):
             steps.append(act)
+        elif act == "W":
+            steps.append("-")          # time passes: the loop runs, nothing completes
         elif int(act[1:]) == ci:
             steps.append("C" if act[0] in "CDk" else "c")
         else:
@@ -269,6 +277,11 @@ def gen_cases(rng, tier):
                 if not thorough and n == maxlen and rng.random() < 0.5:
                     continue
                 yield {"op": "send", "conns": conns, "schedule": list(sched)}
+    # a stalled peer: time passes with writes outstanding (no completion), then completions in either order
+    for conns in (["tty"], ["tcp"], ["ctcp"]):
+        for sched in (["R", "R", "W", "D0", "C0"], ["R", "W", "R", "W", "D0", "D0"], ["R", "R", "R", "W", "C0", "W", "D0", "C0"],
+                      ["R", "W", "C0", "R", "W", "R", "D0"], ["R", "R", "W", "W", "D0", "D0", "D0"]):
+            yield {"op": "send", "conns": conns, "schedule": sched}
     # back-to-back actions within one loop iteration (a send right after a completion, bursts without yielding)
     for conns in (["tcp"], ["tty"], ["ctcp"]):
         alphabet = ["R", "r", "C0", "c0", "k0"]
